@@ -12,6 +12,9 @@ pub struct Obs {
   pub inconclusive: Vec<String>,
   /// free-text remarks (e.g. messages of counted panics)
   pub notes: Vec<String>,
+  /// key/value log merged across worker processes; the merged log must be a
+  /// function (same key => same value)
+  pub log: Vec<(String, String)>,
 }
 
 impl Obs {
